@@ -34,7 +34,7 @@ func init() {
 		Technique: "online checker over the hook event log of the real Manager (generation / runner / converge events with one global sequence) + reference merge model of file and database configuration; restarts issued at random instants and at hook points",
 		Rule: "each case draws file and database configuration (0–2 sources and 0–3 integrations each, name clashes with different contents, disabled entries, several sources per integration, optionally a reference to an unknown source in the file or in the database), starts the real Manager, " +
 			"compares the loaded tasks (source, integration, start, stop, batch, concurrency) with the reference merge, then issues 1–4 restarts one at a time at random instants or hook points (while a runner is between its two transactions, right after the previous start-up signal, after storing a new integration or source) and checks the event log: " +
-			"never two live runners for one pair, no event of a previous generation after Restart returned, new entries picked up. signature = (config mix class, restart timing classes, outcome).",
+			"never two live runners for one pair, no event of a previous generation after Restart returned, new entries picked up. signature = (config mix class, restart timing classes, outcome). The unknown-source scenario restarts twice after the failed load. Process level (real binary): unknown source must end the process; a file-disabled integration does not run from the database; a stored integration removed before a restart (triggered through the running dashboard) does not run again.",
 		Assumptions: []string{
 			"restarts are issued one at a time (the statement quantifies timings relative to running steps, not concurrent Restart calls)",
 			"database-stored integrations are stored complete (with the identity columns) and their tables exist; database-stored sources get the defaults the loader gives them",
